@@ -136,6 +136,7 @@ func init() {
 	Properties["C04"] = &PropertySpec{
 		Modules: st,
 		Rules: []Rule{
+			Only(R10(), `field-store`, `map-update`, `no-in-place`),
 			Only(R54(), `GcsEmu`, `^no-carried`),
 			R11(),
 			R12(),
@@ -218,7 +219,7 @@ func init() {
 		Modules: st,
 		Rules: []Rule{
 			Only(R59(), `^b/`),
-			Only(R58(), `^c/`),
+			Only(R58(), `^c/`, `^e/`),
 			R56(),
 			R49(),
 			Only(R48(), `filestore`),
@@ -232,6 +233,7 @@ func init() {
 	Properties["C10"] = &PropertySpec{
 		Modules: st,
 		Rules: []Rule{
+			Only(R41(), `read-back-outside-the-lock`),
 			Only(R56(), `^a/`),
 			Only(R22(), `Metageneration`, `metagen`, `read-only`),
 			R23(),
@@ -245,7 +247,7 @@ func init() {
 	Properties["C11"] = &PropertySpec{
 		Modules: st,
 		Rules: []Rule{
-			Only(R58(), `^c/`),
+			Only(R58(), `^c/`, `^e/`),
 			R49(),
 			Only(R48(), `filestore`),
 			Only(R17(), `handleGcsListBucket`, `makeBucketListResults`),
@@ -327,7 +329,7 @@ func init() {
 			Only(R16(3, core.PkgGcsemu, core.PkgGcsutil), fns(composeCopyFns...)),
 			Only(R15(), `handleGcsCompose`, `handleGcsCopy`),
 			Only(R22(), `Copy`),
-			Only(R10(), `Copy`, `compose`, `decode-target`),
+			Only(R10(), `Copy`, `compose`, `Compose`, `decode-target`, `no-in-place`),
 			Only(R33(), fns("(*GcsEmu).finishCompose")),
 			Only(R41(), fns("(*GcsEmu).handleGcsCopy", "(*GcsEmu).handleGcsCompose")),
 			R42(),
@@ -373,6 +375,7 @@ func init() {
 			Only(R59(), `^a/`),
 			R06(),
 			Only(R02R03(), fns("(*table).gc")),
+			Only(R02R03(), fns(rpcMutateRow, rpcMutateRows, rpcCAM, rpcRMW)),
 			Only(R55(), `^c/`, `^d/`),
 			Only(R53(), `^b/`),
 			Only(R01(nil), `/table\.rows/`),
